@@ -19,9 +19,15 @@ theorem Reaches.of_step {q : Quirks} {env : Env} {s s1 : St} {c c1 : List Nat}
     exact Reaches.single h (by simpa [Res.code] using this)
 
 /-- the concrete state is described by the abstract state of the grammar -/
-def Sim (a : Abs) (s : St) : Prop :=
-  a.depth = s.stack.length ∧ a.widthDone = s.widthSet ∧ a.moved = s.hasMoved ∧ s.moveErr = false ∧
-    a.ended = false
+structure Sim (a : Abs) (s : St) : Prop where
+  depth : a.depth = s.stack.length
+  width : a.widthDone = s.widthSet
+  moved : a.moved = s.hasMoved
+  noErr : s.moveErr = false
+  notEnded : a.ended = false
+  stage : a.stage = s.stage
+  stems : s.hstem.length + s.vstem.length = 2 * a.nStems
+  le48 : s.stack.length ≤ 48
 
 def hintFree : Tok → Bool
   | .op o => !isStem o
@@ -36,8 +42,8 @@ theorem opBytes_all' (op : Op) :
     | exact Or.inl ⟨_, rfl, by decide, by decide, by decide, rfl⟩
     | exact Or.inr ⟨_, rfl, rfl⟩
 
-theorem step_op' (env : Env) (s : St) (op : Op) (rest : List Nat) (hs : s.stack.length ≤ 48) :
-    T2.step strict env s (opBytes op ++ rest) = checkMove (exec strict env s op rest) := by
+theorem step_op' (q : Quirks) (env : Env) (s : St) (op : Op) (rest : List Nat) (hs : s.stack.length ≤ 48) :
+    T2.step q env s (opBytes op ++ rest) = checkMove (exec q env s op rest) := by
   have hov : ¬ s.stack.length > Gen.t2maxStack := by rw [maxStack_eq]; omega
   rcases opBytes_all' op with ⟨b, hb, h32, h12, h28, hop⟩ | ⟨b, hb, hop⟩
   · rw [hb]
@@ -56,7 +62,7 @@ theorem exec_moveto_progress (env : Env) (s : St) (o : Op) (code : List Nat) (hm
     (hc : legalCount o s.stack.length = true ∨
       (s.widthSet = false ∧ 1 ≤ s.stack.length ∧ legalCount o (s.stack.length - 1) = true)) :
     ∃ s', checkMove (exec strict env s o code) = .ok (.cont s' code) ∧ s'.stack = [] ∧ s'.hasMoved = true ∧
-      s'.widthSet = true ∧ s'.moveErr = false := by
+      s'.widthSet = true ∧ s'.moveErr = false ∧ s'.stage = s.stage ∧ s'.hstem = s.hstem ∧ s'.vstem = s.vstem := by
   cases o <;> simp only [isMoveto, Bool.false_eq_true] at hm
   all_goals
     simp only [legalCount, beq_iff_eq] at hc
@@ -68,7 +74,7 @@ theorem exec_moveto_progress (env : Env) (s : St) (o : Op) (code : List Nat) (hm
             first
               | (exfalso; simp [hw] at hc; done)
               | (exfalso; simp [hw] at hc; omega)
-              | (refine ⟨_, by simp [exec, hst, hw, setWidth, countCheck, strict, rMoveTo, clear, checkMove, hme, fixq]; rfl, ?_, ?_, ?_, ?_⟩ <;>
+              | (refine ⟨_, by simp [exec, hst, hw, setWidth, countCheck, strict, rMoveTo, clear, checkMove, hme, fixq]; rfl, ?_, ?_, ?_, ?_, ?_, ?_, ?_⟩ <;>
                   simp [rMoveTo, hme]))
 
 
@@ -83,8 +89,778 @@ theorem afterWidth_some (a : Abs) (o : Op) (n : Nat) (h : afterWidth a o = some 
       exact Or.inr ⟨h2.1.1, h2.1.2, h2.2⟩
     · cases h
 
-/- `tok_progress` (one grammar token = a chain of successful steps preserving `Sim`) and the induction
-   over `wfRun` are the remaining work for `C05_progress_full`; the per-token ingredients are above and in
-   T2.lean (`step_encodeInt`, `step_encodeFixed`) and T2Progress.lean (`exec_pathop_progress`). -/
+/-! ### agreement of the Go quirks with the specification on bounded operands -/
+
+/-- within the range in which `fix` does not clamp -/
+def Bnd (v : Int) : Prop := -(32000 * one) ≤ v ∧ v ≤ 32000 * one
+
+theorem fixq_bnd (q : Quirks) (d : Int) (h : Bnd d) : fixq q d = d := by
+  unfold fixq
+  obtain ⟨h1, h2⟩ := h
+  split
+  · rw [if_neg (by omega), if_neg (by omega)]
+  · rfl
+
+theorem bnd_zero : Bnd 0 := by simp [Bnd, one]
+theorem bnd_neg {v : Int} (h : Bnd v) : Bnd (-v) := by unfold Bnd at *; omega
+
+theorem rMoveTo_bnd (q : Quirks) (s : St) (a b : Int) (ha : Bnd a) (hb : Bnd b) :
+    rMoveTo q s a b = rMoveTo strict s a b := by
+  simp only [rMoveTo, fixq_bnd _ _ ha, fixq_bnd _ _ hb]
+
+theorem rLineTo_bnd (q : Quirks) (s : St) (a b : Int) (ha : Bnd a) (hb : Bnd b) :
+    rLineTo q s a b = rLineTo strict s a b := by
+  simp only [rLineTo, fixq_bnd _ _ ha, fixq_bnd _ _ hb]
+
+theorem rCurveTo_bnd (q : Quirks) (s : St) (a b c d e f : Int) (ha : Bnd a) (hb : Bnd b) (hc : Bnd c)
+    (hd : Bnd d) (he : Bnd e) (hf : Bnd f) :
+    rCurveTo q s a b c d e f = rCurveTo strict s a b c d e f := by
+  simp only [rCurveTo, fixq_bnd _ _ ha, fixq_bnd _ _ hb, fixq_bnd _ _ hc, fixq_bnd _ _ hd, fixq_bnd _ _ he,
+    fixq_bnd _ _ hf]
+
+def BndL (l : List Int) : Prop := ∀ v ∈ l, Bnd v
+
+theorem BndL.tail {a : Int} {l : List Int} (h : BndL (a :: l)) : BndL l := fun v hv => h v (List.mem_cons_of_mem _ hv)
+theorem BndL.head {a : Int} {l : List Int} (h : BndL (a :: l)) : Bnd a := h a List.mem_cons_self
+theorem BndL.take {l : List Int} (h : BndL l) (n : Nat) : BndL (l.take n) := fun v hv => h v (List.mem_of_mem_take hv)
+theorem BndL.drop {l : List Int} (h : BndL l) (n : Nat) : BndL (l.drop n) := fun v hv => h v (List.mem_of_mem_drop hv)
+
+theorem rlineLoop_bnd (q : Quirks) (s : St) (l : List Int) (h : BndL l) :
+    rlineLoop q s l = rlineLoop strict s l := by
+  fun_induction rlineLoop q s l with
+  | case1 s dx dy t ih =>
+    rw [ih h.tail.tail]
+    simp only [rlineLoop]
+    rw [rLineTo_bnd q s dx dy h.head h.tail.head]
+  | case2 s l hl => first | rfl | rw [rlineLoop.eq_2 _ _ _ hl]
+
+theorem altLineLoop_bnd (q : Quirks) (hz : Bool) (s : St) (l : List Int) (h : BndL l) :
+    altLineLoop q hz s l = altLineLoop strict hz s l := by
+  fun_induction altLineLoop q hz s l with
+  | case1 hz s => simp [altLineLoop]
+  | case2 hz s z t ih =>
+    rw [ih h.tail]
+    simp only [altLineLoop]
+    rw [rLineTo_bnd q s z 0 h.head bnd_zero, rLineTo_bnd q s 0 z bnd_zero h.head]
+
+theorem curveLoop_bnd (q : Quirks) (s : St) (l : List Int) (h : BndL l) :
+    curveLoop q s l = curveLoop strict s l := by
+  fun_induction curveLoop q s l with
+  | case1 s a b c d e f t ih =>
+    rw [ih h.tail.tail.tail.tail.tail.tail]
+    simp only [curveLoop]
+    rw [rCurveTo_bnd q s a b c d e f h.head h.tail.head h.tail.tail.head h.tail.tail.tail.head
+      h.tail.tail.tail.tail.head h.tail.tail.tail.tail.tail.head]
+  | case2 s l hl => first | rfl | rw [curveLoop.eq_2 _ _ _ hl]
+
+theorem hhLoop_bnd (q : Quirks) (s : St) (d0 : Int) (l : List Int) (hd : Bnd d0) (h : BndL l) :
+    hhLoop q s d0 l = hhLoop strict s d0 l := by
+  fun_induction hhLoop q s d0 l with
+  | case1 s dy1 a b c d t ih =>
+    rw [ih bnd_zero h.tail.tail.tail.tail]
+    simp only [hhLoop]
+    rw [rCurveTo_bnd q s a dy1 b c d 0 h.head hd h.tail.head h.tail.tail.head h.tail.tail.tail.head bnd_zero]
+  | case2 s d0 l hl => first | rfl | rw [hhLoop.eq_2 _ _ _ _ hl]
+
+theorem vvLoop_bnd (q : Quirks) (s : St) (d0 : Int) (l : List Int) (hd : Bnd d0) (h : BndL l) :
+    vvLoop q s d0 l = vvLoop strict s d0 l := by
+  fun_induction vvLoop q s d0 l with
+  | case1 s dx1 a b c d t ih =>
+    rw [ih bnd_zero h.tail.tail.tail.tail]
+    simp only [vvLoop]
+    rw [rCurveTo_bnd q s dx1 a b c 0 d hd h.head h.tail.head h.tail.tail.head bnd_zero h.tail.tail.tail.head]
+  | case2 s d0 l hl => first | rfl | rw [vvLoop.eq_2 _ _ _ _ hl]
+
+theorem hvLoop_bnd (q : Quirks) : ∀ (l : List Int) (hz : Bool) (s : St), BndL l →
+    hvLoop q hz s l = hvLoop strict hz s l
+  | a :: b :: c :: d :: t, hz, s, h => by
+    have ih := fun hz' s' => hvLoop_bnd q t hz' s' h.tail.tail.tail.tail
+    have hb : ∀ v, v = 0 ∨ v ∈ a :: b :: c :: d :: t → Bnd v := by
+      intro v hv
+      rcases hv with rfl | hv
+      · exact bnd_zero
+      · exact h v hv
+    rcases t with _ | ⟨e, _ | ⟨f, r⟩⟩ <;> simp only [hvLoop] <;> cases hz <;>
+      simp only [Bool.false_eq_true, if_false, if_true] <;>
+      rw [rCurveTo_bnd q s _ _ _ _ _ _ (hb _ (by simp)) (hb _ (by simp)) (hb _ (by simp)) (hb _ (by simp))
+        (hb _ (by simp)) (hb _ (by simp))] <;>
+      exact ih _ _
+  | [], hz, s, _ => by simp [hvLoop]
+  | [_], hz, s, _ => by simp [hvLoop]
+  | [_, _], hz, s, _ => by simp [hvLoop]
+  | [_, _, _], hz, s, _ => by simp [hvLoop]
+
+
+theorem gq1 : goQuirks.shortMovetoIgnored = true := rfl
+theorem gq2 : goQuirks.shortPathOpIgnored = true := rfl
+theorem gq3 : goQuirks.extraOperandsIgnored = true := rfl
+theorem sq1 : strict.shortMovetoIgnored = false := rfl
+theorem sq2 : strict.shortPathOpIgnored = false := rfl
+theorem sq3 : strict.extraOperandsIgnored = false := rfl
+
+theorem exec_moveto_agree (env : Env) (s : St) (o : Op) (code : List Nat) (hm : isMoveto o = true)
+    (hc : legalCount o s.stack.length = true ∨
+      (s.widthSet = false ∧ 1 ≤ s.stack.length ∧ legalCount o (s.stack.length - 1) = true))
+    (hb : BndL s.stack) :
+    exec goQuirks env s o code = exec strict env s o code := by
+  cases o <;> simp only [isMoveto, Bool.false_eq_true] at hm
+  all_goals
+    simp only [legalCount, beq_iff_eq] at hc
+    rcases hst : s.stack with _ | ⟨a, _ | ⟨b, _ | ⟨c, _ | ⟨d, t⟩⟩⟩⟩ <;> rw [hst] at hc hb <;>
+      simp only [List.length_cons, List.length_nil] at hc <;>
+      first
+        | (exfalso; omega)
+        | (by_cases hw : s.widthSet = true <;>
+            first
+              | (exfalso; simp [hw] at hc; done)
+              | (exfalso; simp [hw] at hc; omega)
+              | (simp only [exec, hst, hw, setWidth, countCheck, gq1, gq3, sq1, sq3, List.length_cons, List.length_nil]
+                 have hb2 := hb
+                 simp only [BndL, List.mem_cons, List.not_mem_nil, or_false, forall_eq_or_imp, forall_eq, and_true] at hb2
+                 simp [rMoveTo_bnd, bnd_zero, hb2, hst]))
+
+theorem pathOp_agree (s : St) (code : List Nat) (m : Nat) (sh : Bool) (f g : St → St)
+    (h1 : ¬ s.stack.length < m) (h2 : sh = true) (hfg : f s = g s) :
+    pathOp goQuirks s code m sh f = pathOp strict s code m sh g := by
+  simp [pathOp, countCheck, h1, h2, hfg]
+
+theorem curveLoop_left (q : Quirks) (s : St) (l : List Int) (h : BndL l) : BndL (curveLoop q s l).2 := by
+  fun_induction curveLoop q s l with
+  | case1 s a b c d e f t ih => exact ih h.tail.tail.tail.tail.tail.tail
+  | case2 s l hl => exact h
+
+/-- path operators other than flex1/hflex1 with a legal operand count and operands within ±32000: the
+Go configuration does exactly what the specification does -/
+theorem exec_pathop_agree (env : Env) (s : St) (op : Op) (code : List Nat)
+    (hp : isPathOp op = true) (hl : legalCount op s.stack.length = true) (hb : BndL s.stack)
+    (hne : op ≠ .flex1 ∧ op ≠ .hflex1) :
+    exec goQuirks env s op code = exec strict env s op code := by
+  cases op <;> simp only [isPathOp, Bool.false_eq_true] at hp <;>
+    simp only [legalCount, Bool.and_eq_true, decide_eq_true_eq, beq_iff_eq] at hl <;>
+    simp only [exec]
+  case rlineto => exact pathOp_agree s code _ _ _ _ (by omega) (by simp; omega) (rlineLoop_bnd _ _ _ hb)
+  case hlineto => exact pathOp_agree s code _ _ _ _ (by omega) rfl (altLineLoop_bnd _ _ _ _ hb)
+  case vlineto => exact pathOp_agree s code _ _ _ _ (by omega) rfl (altLineLoop_bnd _ _ _ _ hb)
+  case rrcurveto =>
+    exact pathOp_agree s code _ _ _ _ (by omega) (by simp; omega) (by simp only [curveLoop_bnd _ _ _ hb])
+  case rcurveline =>
+    refine pathOp_agree s code _ _ _ _ (by omega) (by simp; omega) ?_
+    have hleft := curveLoop_left strict s s.stack hb
+    simp only [curveLoop_bnd _ _ _ hb]
+    split
+    · rename_i s1 dx dy t heq
+      rw [heq] at hleft
+      exact rLineTo_bnd _ _ _ _ hleft.head hleft.tail.head
+    · rfl
+  case rlinecurve =>
+    refine pathOp_agree s code _ _ _ _ (by omega) (by simp; omega) ?_
+    simp only [rlineLoop_bnd _ _ _ (hb.take _), curveLoop_bnd _ _ _ (hb.drop _)]
+  case hhcurveto =>
+    refine pathOp_agree s code _ _ _ _ (by omega) (by simp; omega) ?_
+    split
+    · split
+      · rename_i d t heq
+        rw [heq] at hb
+        exact hhLoop_bnd _ _ _ _ hb.head hb.tail
+      · rfl
+    · exact hhLoop_bnd _ _ _ _ bnd_zero hb
+  case vvcurveto =>
+    refine pathOp_agree s code _ _ _ _ (by omega) (by simp; omega) ?_
+    split
+    · split
+      · rename_i d t heq
+        rw [heq] at hb
+        exact vvLoop_bnd _ _ _ _ hb.head hb.tail
+      · rfl
+    · exact vvLoop_bnd _ _ _ _ bnd_zero hb
+  case hvcurveto => exact pathOp_agree s code _ _ _ _ (by omega) (by simp; omega) (hvLoop_bnd _ _ _ _ hb)
+  case vhcurveto => exact pathOp_agree s code _ _ _ _ (by omega) (by simp; omega) (hvLoop_bnd _ _ _ _ hb)
+  case flex =>
+    refine pathOp_agree s code _ _ _ _ (by omega) (by simp; omega) ?_
+    split
+    · rename_i a0 a1 a2 a3 a4 a5 a6 a7 a8 a9 a10 a11 a12 t heq
+      rw [heq] at hb
+      have hb2 := hb
+      simp only [BndL, List.mem_cons, forall_eq_or_imp] at hb2
+      simp [rCurveTo_bnd, hb2]
+    · rfl
+  case hflex =>
+    refine pathOp_agree s code _ _ _ _ (by omega) (by simp; omega) ?_
+    split
+    · rename_i a0 a1 a2 a3 a4 a5 a6 t heq
+      rw [heq] at hb
+      have hb2 := hb
+      simp only [BndL, List.mem_cons, forall_eq_or_imp] at hb2
+      have hn := bnd_neg hb2.2.2.1
+      simp [rCurveTo_bnd, hb2, bnd_zero, hn]
+    · rfl
+  case flex1 => exact absurd rfl hne.1
+  case hflex1 => exact absurd rfl hne.2
+
+/-! ### the width operand and the hint operators -/
+
+theorem afterWidth_cases (a : Abs) (o : Op) (n : Nat) (h : afterWidth a o = some n) :
+    (n = a.depth ∧ legalCount o n = true) ∨
+    (a.widthDone = false ∧ a.depth = n + 1 ∧ legalCount o n = true) := by
+  unfold afterWidth at h
+  split at h
+  · rename_i h1
+    simp only [Option.some.injEq] at h
+    subst h
+    exact Or.inl ⟨rfl, h1⟩
+  · split at h
+    · rename_i h2
+      simp only [Bool.and_eq_true, Bool.not_eq_true', decide_eq_true_eq] at h2
+      simp only [Option.some.injEq] at h
+      subst h
+      exact Or.inr ⟨h2.1.1, by omega, h2.2⟩
+    · cases h
+
+theorem setWidth_frame (env : Env) (s : St) (p : Bool) :
+    (setWidth env s p).hstem = s.hstem ∧ (setWidth env s p).vstem = s.vstem ∧
+    (setWidth env s p).hasMoved = s.hasMoved ∧ (setWidth env s p).moveErr = s.moveErr ∧
+    (setWidth env s p).stage = s.stage ∧ (setWidth env s p).cmds = s.cmds ∧ (setWidth env s p).x = s.x ∧
+    (setWidth env s p).y = s.y := by
+  unfold setWidth
+  split
+  · exact ⟨rfl, rfl, rfl, rfl, rfl, rfl, rfl, rfl⟩
+  · split
+    · split <;> exact ⟨rfl, rfl, rfl, rfl, rfl, rfl, rfl, rfl⟩
+    · exact ⟨rfl, rfl, rfl, rfl, rfl, rfl, rfl, rfl⟩
+
+/-- after `setGlyphWidth`: exactly the legal operands remain, and the width is set -/
+theorem setWidth_after (env : Env) (s : St) (n : Nat) (p : Bool)
+    (h : (p = false ∧ s.stack.length = n) ∨ (p = true ∧ s.widthSet = false ∧ s.stack.length = n + 1)) :
+    (setWidth env s p).stack.length = n ∧ (setWidth env s p).widthSet = true ∧
+    (∀ v ∈ (setWidth env s p).stack, v ∈ s.stack) := by
+  unfold setWidth
+  rcases h with ⟨rfl, hl⟩ | ⟨rfl, hw, hl⟩
+  · by_cases hws : s.widthSet = true
+    · simp [hws, hl]
+    · simp [hws, hl]
+  · simp only [hw, Bool.false_eq_true, if_false, if_true]
+    rcases hst : s.stack with _ | ⟨w, t⟩
+    · rw [hst] at hl; simp at hl
+    · rw [hst] at hl
+      simp only [List.length_cons] at hl
+      exact ⟨by simp; omega, rfl, fun v hv => List.mem_cons_of_mem _ hv⟩
+
+theorem stemPairs_length : ∀ (p : Int) (l : List Int), (stemPairs p l).length = 2 * (l.length / 2)
+  | p, a :: b :: t => by
+    simp only [stemPairs, List.length_cons, stemPairs_length _ t]
+    omega
+  | _, [] => by simp [stemPairs]
+  | _, [_] => by simp [stemPairs]
+
+/-- stem operators: the same result for every quirk setting -/
+theorem stem_tok (env : Env) (a : Abs) (s : St) (o : Op) (code : List Nat) (n : Nat)
+    (hst : isStem o = true) (hstage : a.stage ≤ 1) (haw : afterWidth a o = some n) (hsim : Sim a s) :
+    ∃ s', (∀ q, exec q env s o code = .ok (.cont s' code)) ∧ s'.stack = [] ∧
+      Sim { a with depth := 0, widthDone := true, stage := 1, nStems := a.nStems + n / 2 } s' := by
+  have hc := afterWidth_cases a o n haw
+  have hleg : 2 ≤ n ∧ n % 2 = 0 := by
+    rcases hc with ⟨_, h⟩ | ⟨_, _, h⟩ <;>
+      (cases o <;> simp only [isStem, Bool.false_eq_true] at hst <;>
+        simp only [legalCount, Bool.and_eq_true, decide_eq_true_eq, beq_iff_eq] at h <;> exact h)
+  have hpres : ((s.stack.length % 2 == 1) = false ∧ s.stack.length = n) ∨
+      ((s.stack.length % 2 == 1) = true ∧ s.widthSet = false ∧ s.stack.length = n + 1) := by
+    rcases hc with ⟨h1, _⟩ | ⟨h1, h2, _⟩
+    · left; rw [← hsim.depth, ← h1]; exact ⟨by simp; omega, rfl⟩
+    · right; rw [← hsim.depth, ← hsim.width]; exact ⟨by simp; omega, h1, h2⟩
+  have hs0 : ({ s with stage := 1 } : St).stack = s.stack := rfl
+  obtain ⟨k1, k2, k3⟩ := setWidth_after env { s with stage := 1 } n (s.stack.length % 2 == 1) hpres
+  obtain ⟨f1, f2, f3, f4, f5, f6, f7, f8⟩ := setWidth_frame env { s with stage := 1 } (s.stack.length % 2 == 1)
+  have hstg : ¬ s.stage > 1 := by rw [← hsim.stage]; omega
+  have hn2 : ¬ s.stack.length < 2 := by rcases hpres with ⟨_, h⟩ | ⟨_, _, h⟩ <;> omega
+  have hpar : ((setWidth env { s with stage := 1 } (s.stack.length % 2 == 1)).stack.length % 2 != 0) = false := by
+    rw [k1]; simp; omega
+  have hlen := stemPairs_length 0 (setWidth env { s with stage := 1 } (s.stack.length % 2 == 1)).stack
+  rw [k1] at hlen
+  have hst2 := hsim.stems
+  generalize hs1 : setWidth env { s with stage := 1 } (s.stack.length % 2 == 1) = s1 at *
+  cases o <;> simp only [isStem, Bool.false_eq_true] at hst
+  case hstem | hstemhm =>
+    refine ⟨{ s1 with hstem := s1.hstem ++ stemPairs 0 s1.stack, stack := [] }, fun q => ?_, rfl, ?_⟩
+    · simp only [exec, hstg, hn2, if_false, hs1, hpar, Bool.false_and, Bool.false_eq_true]
+    · exact ⟨rfl, by simp [k2], by simp [f3, hsim.moved], by simp [f4, hsim.noErr], hsim.notEnded, by simp [f5],
+        by simp only [List.length_append, f1, f2, hlen]; omega, by simp⟩
+  case vstem | vstemhm =>
+    refine ⟨{ s1 with vstem := s1.vstem ++ stemPairs 0 s1.stack, stack := [] }, fun q => ?_, rfl, ?_⟩
+    · simp only [exec, hstg, hn2, if_false, hs1, hpar, Bool.false_and, Bool.false_eq_true]
+    · exact ⟨rfl, by simp [k2], by simp [f3, hsim.moved], by simp [f4, hsim.noErr], hsim.notEnded, by simp [f5],
+        by simp only [List.length_append, f1, f2, hlen]; omega, by simp⟩
+
+/-- hintmask / cntrmask with the implicit vstem operands and ⌈nStems/8⌉ mask bytes: the same result
+for every quirk setting -/
+theorem mask_tok (env : Env) (a : Abs) (s : St) (c : Bool) (bs rest : List Nat) (n : Nat)
+    (haw : afterWidth a .hintmask = some n)
+    (hcond : ((n == 0 || a.stage == 1) && decide (a.stage ≥ 1) && decide (a.nStems + n / 2 ≥ 1) &&
+      (bs.length == (a.nStems + n / 2 + 7) / 8)) = true)
+    (hsim : Sim a s) (hrest : rest ≠ []) :
+    ∃ s', (∀ q, exec q env s (if c then .cntrmask else .hintmask) (bs ++ rest) = .ok (.cont s' rest)) ∧
+      s'.stack = [] ∧
+      Sim { a with depth := 0, widthDone := true, stage := 2, nStems := a.nStems + n / 2 } s' := by
+  simp only [Bool.and_eq_true, Bool.or_eq_true, beq_iff_eq, decide_eq_true_eq] at hcond
+  obtain ⟨⟨⟨hc1, hc2⟩, hc3⟩, hc4⟩ := hcond
+  have hc := afterWidth_cases a .hintmask n haw
+  have hleg : n % 2 = 0 := by
+    rcases hc with ⟨_, h⟩ | ⟨_, _, h⟩ <;> simpa [legalCount] using h
+  have hpres : ((s.stack.length % 2 == 1) = false ∧ s.stack.length = n) ∨
+      ((s.stack.length % 2 == 1) = true ∧ s.widthSet = false ∧ s.stack.length = n + 1) := by
+    rcases hc with ⟨h1, _⟩ | ⟨h1, h2, _⟩
+    · left; rw [← hsim.depth, ← h1]; exact ⟨by simp; omega, rfl⟩
+    · right; rw [← hsim.depth, ← hsim.width]; exact ⟨by simp; omega, h1, h2⟩
+  have hstage1 : s.stack.length ≥ 2 → s.stage = 1 := by
+    intro h2
+    rw [← hsim.stage]
+    rcases hc1 with h0 | h1
+    · rcases hpres with ⟨_, h⟩ | ⟨_, _, h⟩ <;> omega
+    · exact h1
+  have hlate : (decide (s.stack.length ≥ 2) && decide (s.stage > 1)) = false := by
+    by_cases h2 : s.stack.length ≥ 2
+    · simp [hstage1 h2]
+    · simp [h2]
+  have hs0 : (if s.stack.length ≥ 2 then { s with stage := 1 } else s) = s := by
+    by_cases h2 : s.stack.length ≥ 2
+    · have := hstage1 h2
+      simp only [h2, if_true]
+      cases s
+      simp only at this
+      subst this
+      rfl
+    · simp [h2]
+  obtain ⟨k1, k2, k3⟩ := setWidth_after env s n (s.stack.length % 2 == 1) hpres
+  obtain ⟨f1, f2, f3, f4, f5, f6, f7, f8⟩ := setWidth_frame env s (s.stack.length % 2 == 1)
+  have hlen := stemPairs_length 0 (setWidth env s (s.stack.length % 2 == 1)).stack
+  rw [k1] at hlen
+  have hpar : ((setWidth env s (s.stack.length % 2 == 1)).stack.length % 2 != 0) = false := by
+    rw [k1]; simp; omega
+  have hst2 := hsim.stems
+  have hstg := hsim.stage
+  generalize hs1 : setWidth env s (s.stack.length % 2 == 1) = s1 at *
+  have hnst : (s1.hstem.length + (s1.vstem ++ stemPairs 0 s1.stack).length) / 2 = a.nStems + n / 2 := by
+    simp only [List.length_append, f1, f2, hlen]; omega
+  refine ⟨{ s1 with vstem := s1.vstem ++ stemPairs 0 s1.stack, stage := 2, cmds := s1.cmds ++ [if c then Cmd.cntrMask bs else Cmd.hintMask bs], stack := [] }, fun q => ?_, rfl, ?_⟩
+  · have hk : (a.nStems + n / 2 + 7) / 8 = bs.length := hc4.symm
+    have hne0 : (a.nStems + n / 2 == 0) = false := by simp; omega
+    have hearly : ¬ s1.stage < 1 := by rw [f5, ← hstg]; omega
+    have hkl : ¬ bs.length ≥ (bs ++ rest).length := by
+      have : 0 < rest.length := List.length_pos_iff.mpr hrest
+      simp only [List.length_append]; omega
+    cases c <;>
+      simp only [exec, hlate, Bool.false_eq_true, if_false, hs0, hs1, hpar, Bool.false_and, hearly, hnst, hne0, hk,
+        hkl, List.take_left, List.drop_left, if_true] <;> rfl
+  · exact ⟨rfl, by simp [k2], by simp [f3, hsim.moved], by simp [f4, hsim.noErr], hsim.notEnded, rfl,
+      by simp only [List.length_append, f1, f2, hlen]; omega, by simp⟩
+
+/-- endchar with no operand, or with the width only -/
+theorem endchar_tok (env : Env) (a : Abs) (s : St) (code : List Nat) (n : Nat)
+    (haw : afterWidth a .endchar = some n) (hsim : Sim a s) :
+    ∃ s', ∀ q, exec q env s .endchar code = .ok (.done s') := by
+  have hc := afterWidth_cases a .endchar n haw
+  have hn : n = 0 := by
+    rcases hc with ⟨_, h⟩ | ⟨_, _, h⟩ <;> simpa [legalCount] using h
+  subst hn
+  have hpres : ((s.stack.length == 1 || decide (s.stack.length > 4)) = false ∧ s.stack.length = 0) ∨
+      ((s.stack.length == 1 || decide (s.stack.length > 4)) = true ∧ s.widthSet = false ∧ s.stack.length = 0 + 1) := by
+    rcases hc with ⟨h1, _⟩ | ⟨h1, h2, _⟩
+    · left; rw [← hsim.depth, ← h1]; exact ⟨rfl, rfl⟩
+    · right; rw [← hsim.depth, ← hsim.width, h2]; exact ⟨rfl, h1, rfl⟩
+  obtain ⟨k1, _, _⟩ := setWidth_after env s 0 _ hpres
+  refine ⟨setWidth env s (s.stack.length == 1 || decide (s.stack.length > 4)), fun q => ?_⟩
+  simp only [exec, k1, beq_self_eq_true, Bool.true_or, Bool.not_true, Bool.false_and, Bool.false_eq_true, if_false]
+
+theorem pop1_snoc (r : List Int) (a : Int) : pop1 (r ++ [a]) = some (r, a) := by simp [pop1]
+theorem pop2_snoc (r : List Int) (a b : Int) : pop2 (r ++ [a, b]) = some (r, a, b) := by simp [pop2]
+
+theorem split_last (l : List Int) (k : Nat) (h : k ≤ l.length) :
+    ∃ r t, l = r ++ t ∧ t.length = k ∧ r.length = l.length - k :=
+  ⟨l.take (l.length - k), l.drop (l.length - k), (List.take_append_drop _ _).symm, by simp; omega, by simp⟩
+
+theorem bnd_b2i (b : Bool) : Bnd (b2i b) := by cases b <;> simp [b2i, Bnd, one]
+
+theorem BndL.append {a b : List Int} (ha : BndL a) (hb : BndL b) : BndL (a ++ b) := by
+  intro v hv
+  rcases List.mem_append.mp hv with h | h
+  · exact ha v h
+  · exact hb v h
+
+theorem BndL.left {a b : List Int} (h : BndL (a ++ b)) : BndL a := fun v hv => h v (List.mem_append_left _ hv)
+theorem BndL.right {a b : List Int} (h : BndL (a ++ b)) : BndL b := fun v hv => h v (List.mem_append_right _ hv)
+
+theorem len1 (t : List Int) (h : t.length = 1) : ∃ a, t = [a] := by
+  match t, h with
+  | [a], _ => exact ⟨a, rfl⟩
+theorem len2 (t : List Int) (h : t.length = 2) : ∃ a b, t = [a, b] := by
+  match t, h with
+  | [a, b], _ => exact ⟨a, b, rfl⟩
+theorem len4 (t : List Int) (h : t.length = 4) : ∃ a b c d, t = [a, b, c, d] := by
+  match t, h with
+  | [a, b, c, d], _ => exact ⟨a, b, c, d, rfl⟩
+
+theorem bndL_single {v : Int} (h : Bnd v) : BndL [v] := by
+  intro x hx
+  simp only [List.mem_cons, List.not_mem_nil, or_false] at hx
+  subst hx
+  exact h
+
+theorem bnd_abs {a : Int} (h : Bnd a) : Bnd (if a < 0 then -a else a) := by
+  unfold Bnd at *; split <;> omega
+
+/-- the arithmetic and conditional operators of the static grammar: stack effect, nothing else
+changes; the Go configuration agrees except for `mul`; results stay within ±32000 except for
+`add`, `sub`, `mul` -/
+theorem arith_tok (env : Env) (s : St) (o : Op) (code : List Nat) (pops pushes : Nat)
+    (he : arithEffect o = some (pops, pushes)) (hd : pops ≤ s.stack.length) :
+    ∃ st, exec strict env s o code = .ok (.cont { s with stack := st } code) ∧
+      st.length = s.stack.length - pops + pushes ∧
+      (o ≠ .mul → exec goQuirks env s o code = exec strict env s o code) ∧
+      (BndL s.stack → o ≠ .mul → o ≠ .add → o ≠ .sub → BndL st) := by
+  obtain ⟨r, t, hrt, htl, hrl⟩ := split_last s.stack pops hd
+  cases o <;> simp only [arithEffect, Option.some.injEq, Prod.mk.injEq] at he <;>
+    obtain ⟨rfl, rfl⟩ := he
+  case abs =>
+    obtain ⟨a, rfl⟩ := len1 t htl
+    refine ⟨r ++ [if a < 0 then -a else a], by simp only [exec, hrt, pop1_snoc], by simp [hrl] <;> omega,
+      fun _ => by simp only [exec], fun hb _ _ _ => ?_⟩
+    rw [hrt] at hb
+    exact hb.left.append (bndL_single (bnd_abs hb.right.head))
+  case neg =>
+    obtain ⟨a, rfl⟩ := len1 t htl
+    refine ⟨r ++ [-a], by simp only [exec, hrt, pop1_snoc], by simp [hrl] <;> omega,
+      fun _ => by simp only [exec], fun hb _ _ _ => ?_⟩
+    rw [hrt] at hb
+    exact hb.left.append (bndL_single (bnd_neg hb.right.head))
+  case not =>
+    obtain ⟨a, rfl⟩ := len1 t htl
+    refine ⟨r ++ [b2i (a == 0)], by simp only [exec, hrt, pop1_snoc], by simp [hrl] <;> omega,
+      fun _ => by simp only [exec], fun hb _ _ _ => ?_⟩
+    rw [hrt] at hb
+    exact hb.left.append (bndL_single (bnd_b2i _))
+  case drop =>
+    obtain ⟨a, rfl⟩ := len1 t htl
+    refine ⟨r, by simp only [exec, hrt, pop1_snoc], by simp [hrl],
+      fun _ => by simp only [exec], fun hb _ _ _ => ?_⟩
+    rw [hrt] at hb
+    exact hb.left
+  case dup =>
+    obtain ⟨a, rfl⟩ := len1 t htl
+    refine ⟨s.stack ++ [a], by simp only [exec, hrt, pop1_snoc], by simp [hrl] <;> omega,
+      fun _ => by simp only [exec], fun hb _ _ _ => ?_⟩
+    have hb' := hb
+    rw [hrt] at hb'
+    exact hb.append (bndL_single hb'.right.head)
+  case random =>
+    refine ⟨s.stack ++ [40501], by simp only [exec], by simp,
+      fun _ => by simp only [exec], fun hb _ _ _ => ?_⟩
+    exact hb.append (bndL_single (by simp [Bnd, one]))
+  case add =>
+    obtain ⟨a, b, rfl⟩ := len2 t htl
+    exact ⟨r ++ [a + b], by simp only [exec, hrt, pop2_snoc], by simp [hrl] <;> omega,
+      fun _ => by simp only [exec], fun _ _ h _ => absurd rfl h⟩
+  case sub =>
+    obtain ⟨a, b, rfl⟩ := len2 t htl
+    exact ⟨r ++ [a - b], by simp only [exec, hrt, pop2_snoc], by simp [hrl] <;> omega,
+      fun _ => by simp only [exec], fun _ _ _ h => absurd rfl h⟩
+  case mul =>
+    obtain ⟨a, b, rfl⟩ := len2 t htl
+    exact ⟨r ++ [fxMul a b], by simp [exec, hrt, pop2_snoc, strict], by simp [hrl] <;> omega,
+      fun h => absurd rfl h, fun _ h _ _ => absurd rfl h⟩
+  case eq =>
+    obtain ⟨a, b, rfl⟩ := len2 t htl
+    refine ⟨r ++ [b2i (a == b)], by simp only [exec, hrt, pop2_snoc], by simp [hrl] <;> omega,
+      fun _ => by simp only [exec], fun hb _ _ _ => ?_⟩
+    rw [hrt] at hb
+    exact hb.left.append (bndL_single (bnd_b2i _))
+  case and =>
+    obtain ⟨a, b, rfl⟩ := len2 t htl
+    refine ⟨r ++ [b2i (a != 0 && b != 0)], by simp only [exec, hrt, pop2_snoc], by simp [hrl] <;> omega,
+      fun _ => by simp only [exec], fun hb _ _ _ => ?_⟩
+    rw [hrt] at hb
+    exact hb.left.append (bndL_single (bnd_b2i _))
+  case or =>
+    obtain ⟨a, b, rfl⟩ := len2 t htl
+    refine ⟨r ++ [b2i (a != 0 || b != 0)], by simp only [exec, hrt, pop2_snoc], by simp [hrl] <;> omega,
+      fun _ => by simp only [exec], fun hb _ _ _ => ?_⟩
+    rw [hrt] at hb
+    exact hb.left.append (bndL_single (bnd_b2i _))
+  case exch =>
+    obtain ⟨a, b, rfl⟩ := len2 t htl
+    refine ⟨r ++ [b, a], by simp only [exec, hrt, pop2_snoc], by simp [hrl] <;> omega,
+      fun _ => by simp only [exec], fun hb _ _ _ => ?_⟩
+    rw [hrt] at hb
+    refine hb.left.append ?_
+    intro v hv
+    simp only [List.mem_cons, List.not_mem_nil, or_false] at hv
+    rcases hv with rfl | rfl
+    · exact hb.right.tail.head
+    · exact hb.right.head
+  case ifelse =>
+    obtain ⟨a, b, c, d, rfl⟩ := len4 t htl
+    refine ⟨r ++ [if c ≤ d then a else b], by simp [exec, hrt], by simp [hrl] <;> omega,
+      fun _ => by simp only [exec], fun hb _ _ _ => ?_⟩
+    rw [hrt] at hb
+    refine hb.left.append (bndL_single ?_)
+    split
+    · exact hb.right.head
+    · exact hb.right.tail.head
+
+/-! ### one token, whole programs -/
+
+theorem checkMove_cont' (s : St) (c : List Nat) (h : s.moveErr = false) :
+    checkMove (.ok (.cont s c)) = .ok (.cont s c) := by simp [checkMove, h]
+
+theorem tok_progress (env : Env) (a a' : Abs) (s : St) (t : Tok) (rest : List Nat)
+    (hwf : wfTok a t = some a') (hsim : Sim a s) (hne : t ≠ .op .endchar) (hrest : rest ≠ []) :
+    ∃ s', Reaches strict env s (encodeTok t ++ rest) s' rest ∧ Sim a' s' ∧
+      (agreesTok t = true → BndL s.stack →
+        Reaches goQuirks env s (encodeTok t ++ rest) s' rest ∧ BndL s'.stack) := by
+  have hend := hsim.notEnded
+  have hend' : (a.ended = true) = False := by simp [hend]
+  have h48 := hsim.le48
+  cases t with
+  | int v =>
+    simp only [wfTok] at hwf
+    split at hwf
+    · rename_i hc
+      simp only [Bool.and_eq_true, Bool.not_eq_true', maxStack_eq] at hc
+      have hu1 := of_decide_eq_true hc.1.2
+      have hu2 := of_decide_eq_true hc.2
+      have hu0 := of_decide_eq_true hc.1.1.2
+      simp only [Option.some.injEq] at hwf
+      subst hwf
+      have hd := hsim.depth
+      refine ⟨_, Reaches.of_step (step_encodeInt strict env s v rest (by constructor <;> omega) h48),
+        ⟨by simp [hd], hsim.width, hsim.moved, hsim.noErr, hend, hsim.stage, hsim.stems, by simp; omega⟩,
+        fun _ hb => ⟨Reaches.of_step (step_encodeInt goQuirks env s v rest (by constructor <;> omega) h48), ?_⟩⟩
+      exact hb.append (bndL_single (by simp only [Bnd, one]; constructor <;> omega))
+    · cases hwf
+  | fixed u =>
+    simp only [wfTok] at hwf
+    split at hwf
+    · rename_i hc
+      simp only [Bool.and_eq_true, Bool.not_eq_true', maxStack_eq, one] at hc
+      have hu1 := of_decide_eq_true hc.1.2
+      have hu2 := of_decide_eq_true hc.2
+      have hu0 := of_decide_eq_true hc.1.1.2
+      simp only [Option.some.injEq] at hwf
+      subst hwf
+      have hd := hsim.depth
+      refine ⟨_, Reaches.of_step (step_encodeFixed strict env s u rest (by constructor <;> omega) h48),
+        ⟨by simp [hd], hsim.width, hsim.moved, hsim.noErr, hend, hsim.stage, hsim.stems, by simp; omega⟩,
+        fun _ hb => ⟨Reaches.of_step (step_encodeFixed goQuirks env s u rest (by constructor <;> omega) h48), ?_⟩⟩
+      exact hb.append (bndL_single (by simp only [Bnd, one]; constructor <;> omega))
+    · cases hwf
+  | mask c bs =>
+    simp only [wfTok, hend', if_false] at hwf
+    cases haw : afterWidth a .hintmask with
+    | none => rw [haw] at hwf; cases hwf
+    | some n =>
+      rw [haw] at hwf
+      simp only at hwf
+      split at hwf
+      · rename_i hcond
+        simp only [Option.some.injEq] at hwf
+        subst hwf
+        obtain ⟨s', hex, hst, hsim'⟩ := mask_tok env a s c bs rest n haw hcond hsim hrest
+        have hstep : ∀ q, T2.step q env s (encodeTok (.mask c bs) ++ rest) = .ok (.cont s' rest) := by
+          intro q
+          simp only [encodeTok, List.append_assoc]
+          rw [step_op' q env s _ (bs ++ rest) h48, hex q]
+          exact checkMove_cont' _ _ hsim'.noErr
+        exact ⟨s', Reaches.of_step (hstep strict), hsim',
+          fun _ _ => ⟨Reaches.of_step (hstep goQuirks), by rw [hst]; intro v hv; cases hv⟩⟩
+      · cases hwf
+  | op o =>
+    simp only [wfTok, hend', if_false] at hwf
+    simp only [encodeTok]
+    by_cases hmv : isMoveto o = true
+    · simp only [hmv, if_true] at hwf
+      cases haw : afterWidth a o with
+      | none => rw [haw] at hwf; cases hwf
+      | some n =>
+        rw [haw] at hwf
+        simp only [Option.map_some, Option.some.injEq] at hwf
+        subst hwf
+        have hc := afterWidth_cases a o n haw
+        have hc' : legalCount o s.stack.length = true ∨
+            (s.widthSet = false ∧ 1 ≤ s.stack.length ∧ legalCount o (s.stack.length - 1) = true) := by
+          rw [← hsim.depth, ← hsim.width]
+          rcases hc with ⟨h1, h2⟩ | ⟨h1, h2, h3⟩
+          · left; rw [← h1]; exact h2
+          · right; exact ⟨h1, by omega, by rw [h2]; simpa using h3⟩
+        obtain ⟨s', hex, k1, k2, k3, k4, k5, k6, k7⟩ := exec_moveto_progress env s o rest hmv hsim.noErr hc'
+        refine ⟨s', Reaches.of_step (by rw [step_op' strict env s o rest h48]; exact hex),
+          ⟨by simp [k1], by simp [k3], by simp [k2], k4, hend, by simp [k5, hsim.stage],
+            by rw [k6, k7]; exact hsim.stems, by simp [k1]⟩, fun _ hb => ⟨?_, by rw [k1]; intro v hv; cases hv⟩⟩
+        exact Reaches.of_step (by rw [step_op' goQuirks env s o rest h48, exec_moveto_agree env s o rest hmv hc' hb]; exact hex)
+    · simp only [hmv, Bool.false_eq_true, if_false] at hwf
+      by_cases hpo : isPathOp o = true
+      · simp only [hpo, if_true] at hwf
+        split at hwf
+        · rename_i hcond
+          simp only [Bool.and_eq_true] at hcond
+          simp only [Option.some.injEq] at hwf
+          subst hwf
+          have hl : legalCount o s.stack.length = true := by rw [← hsim.depth]; exact hcond.2
+          have hmoved : s.hasMoved = true := by rw [← hsim.moved]; exact hcond.1
+          obtain ⟨s1, hex, hk⟩ := exec_pathop_progress env s o rest hpo hl
+          obtain ⟨k1, k2, k3, k4, k5, k6, k7, k8⟩ := hk
+          have hme : (clear s1).moveErr = false := by simp [clear, k2 hmoved, hsim.noErr]
+          have hstep : T2.step strict env s (opBytes o ++ rest) = .ok (.cont (clear s1) rest) := by
+            rw [step_op' strict env s o rest h48, hex]; exact checkMove_cont' _ _ hme
+          refine ⟨clear s1, Reaches.of_step hstep,
+            ⟨rfl, by simp [clear, k3, hsim.width], by simp [clear, k1, hsim.moved], hme, hend,
+              by simp [clear, k5, hsim.stage], by simp only [clear, k6, k7]; exact hsim.stems, by simp [clear]⟩,
+            fun hag hb => ⟨?_, by simp only [clear]; intro v hv; cases hv⟩⟩
+          have hne2 : o ≠ .flex1 ∧ o ≠ .hflex1 := by
+            simp only [agreesTok, Bool.not_eq_true', Bool.or_eq_false_iff, beq_eq_false_iff_ne, ne_eq] at hag
+            exact ⟨hag.1.2, hag.2⟩
+          exact Reaches.of_step (by
+            rw [step_op' goQuirks env s o rest h48, exec_pathop_agree env s o rest hpo hl hb hne2, hex]
+            exact checkMove_cont' _ _ hme)
+        · cases hwf
+      · simp only [hpo, Bool.false_eq_true, if_false] at hwf
+        by_cases hst : isStem o = true
+        · simp only [hst, if_true] at hwf
+          split at hwf
+          · rename_i hcond
+            simp only [Bool.and_eq_true, decide_eq_true_eq] at hcond
+            cases haw : afterWidth a o with
+            | none => rw [haw] at hwf; cases hwf
+            | some n =>
+              rw [haw] at hwf
+              simp only [Option.map_some, Option.some.injEq] at hwf
+              subst hwf
+              obtain ⟨s', hex, hst', hsim'⟩ := stem_tok env a s o rest n hst hcond.1 haw hsim
+              have hstep : ∀ q, T2.step q env s (opBytes o ++ rest) = .ok (.cont s' rest) := by
+                intro q
+                rw [step_op' q env s o rest h48, hex q]
+                exact checkMove_cont' _ _ hsim'.noErr
+              exact ⟨s', Reaches.of_step (hstep strict), hsim',
+                fun _ _ => ⟨Reaches.of_step (hstep goQuirks), by rw [hst']; intro v hv; cases hv⟩⟩
+          · cases hwf
+        · simp only [hst, Bool.false_eq_true, if_false] at hwf
+          by_cases hec : (o == .endchar) = true
+          · exact absurd (by rw [beq_iff_eq] at hec; rw [hec]) hne
+          · simp only [hec, Bool.false_eq_true, if_false] at hwf
+            cases hae : arithEffect o with
+            | none => rw [hae] at hwf; cases hwf
+            | some pp =>
+              obtain ⟨pops, pushes⟩ := pp
+              rw [hae] at hwf
+              simp only at hwf
+              split at hwf
+              · rename_i hcond
+                simp only [Bool.and_eq_true, maxStack_eq] at hcond
+                have hq1 := of_decide_eq_true hcond.1
+                have hq2 := of_decide_eq_true hcond.2
+                simp only [Option.some.injEq] at hwf
+                subst hwf
+                have hd := hsim.depth
+                obtain ⟨st, hex, hlen, hag1, hbn⟩ := arith_tok env s o rest pops pushes hae (by omega)
+                have hstep : T2.step strict env s (opBytes o ++ rest) = .ok (.cont { s with stack := st } rest) := by
+                  rw [step_op' strict env s o rest h48, hex]; exact checkMove_cont' _ _ hsim.noErr
+                refine ⟨{ s with stack := st }, Reaches.of_step hstep,
+                  ⟨by simp [hlen, hd], hsim.width, hsim.moved, hsim.noErr, hend, hsim.stage, hsim.stems,
+                    by simp only [hlen]; rw [← hd]; omega⟩, fun hag hb => ?_⟩
+                simp only [agreesTok, Bool.not_eq_true', Bool.or_eq_false_iff, beq_eq_false_iff_ne, ne_eq] at hag
+                refine ⟨Reaches.of_step ?_, hbn hb hag.1.1.1.1 hag.1.1.1.2 hag.1.1.2⟩
+                rw [step_op' goQuirks env s o rest h48, hag1 hag.1.1.1.1, hex]
+                exact checkMove_cont' _ _ hsim.noErr
+              · cases hwf
+
+theorem encodeTok_ne_nil (t : Tok) : encodeTok t ≠ [] := by
+  cases t with
+  | int v =>
+    simp only [encodeTok, encodeInt]
+    split
+    · simp
+    · split
+      · simp
+      · split <;> simp
+  | fixed u => simp [encodeTok, encodeFixed]
+  | op o =>
+    simp only [encodeTok]
+    rcases opBytes_all' o with ⟨b, hb, _⟩ | ⟨b, hb, _⟩ <;> rw [hb] <;> simp
+  | mask c bs =>
+    simp only [encodeTok]
+    rcases opBytes_all' (if c then Op.cntrmask else Op.hintmask) with ⟨b, hb, _⟩ | ⟨b, hb, _⟩ <;> rw [hb] <;> simp
+
+theorem encode_cons (t : Tok) (ts : Program) : encode (t :: ts) = encodeTok t ++ encode ts := by
+  simp [encode]
+
+theorem encode_ne_nil (ts : Program) (h : ts ≠ []) : encode ts ≠ [] := by
+  cases ts with
+  | nil => exact absurd rfl h
+  | cons t r =>
+    rw [encode_cons]
+    intro hc
+    exact encodeTok_ne_nil t (List.append_eq_nil_iff.mp hc).1
+
+theorem prog_progress (env : Env) : ∀ (p : Program) (a a' : Abs) (s : St),
+    wfRun a p = some a' → a'.ended = true → Sim a s →
+    ∃ s1 c1 s2, Reaches strict env s (encode p) s1 c1 ∧ (∀ q, T2.step q env s1 c1 = .ok (.done s2)) ∧
+      (agreesCheck p = true → BndL s.stack → Reaches goQuirks env s (encode p) s1 c1) := by
+  intro p
+  induction p with
+  | nil =>
+    intro a a' s h he hsim
+    simp only [wfRun, Option.some.injEq] at h
+    subst h
+    rw [hsim.notEnded] at he
+    cases he
+  | cons t ts ih =>
+    intro a a' s h he hsim
+    simp only [wfRun] at h
+    cases h1 : wfTok a t with
+    | none => rw [h1] at h; cases h
+    | some a1 =>
+      rw [h1] at h
+      simp only [Option.bind_some] at h
+      by_cases hte : t = .op .endchar
+      · subst hte
+        have hend' : (a.ended = true) = False := by simp [hsim.notEnded]
+        simp only [wfTok, hend', if_false, isMoveto, isPathOp, isStem, Bool.false_eq_true, beq_self_eq_true, if_true] at h1
+        cases haw : afterWidth a .endchar with
+        | none => rw [haw] at h1; cases h1
+        | some n =>
+          obtain ⟨s2, hex⟩ := endchar_tok env a s (encode ts) n haw hsim
+          refine ⟨s, encode (Tok.op Op.endchar :: ts), s2, Reaches.refl _ _, fun q => ?_, fun _ _ => Reaches.refl _ _⟩
+          rw [encode_cons]
+          simp only [encodeTok]
+          rw [step_op' q env s .endchar (encode ts) hsim.le48, hex q]
+          rfl
+      · have hts : ts ≠ [] := by
+          intro hnil
+          subst hnil
+          simp only [wfRun, Option.some.injEq] at h
+          subst h
+          -- a token other than endchar never sets `ended`
+          obtain ⟨s', _, hsim', _⟩ := tok_progress env a a1 s t [0] h1 hsim hte (by simp)
+          rw [hsim'.notEnded] at he
+          cases he
+        obtain ⟨s', hr, hsim', hag⟩ := tok_progress env a a1 s t (encode ts) h1 hsim hte (encode_ne_nil ts hts)
+        obtain ⟨s1, c1, s2, k1, k2, k3⟩ := ih a1 a' s' h he hsim'
+        refine ⟨s1, c1, s2, by rw [encode_cons]; exact hr.trans k1, k2, fun hag2 hb => ?_⟩
+        simp only [agreesCheck, List.all_cons, Bool.and_eq_true] at hag2
+        obtain ⟨g1, g2⟩ := hag hag2.1 hb
+        rw [encode_cons]
+        exact g1.trans (k3 hag2.2 g2)
+
+theorem sim_init (env : Env) : Sim {} (St.init env) :=
+  ⟨rfl, rfl, rfl, rfl, rfl, rfl, rfl, by simp [St.init]⟩
+
+/-- whole-program progress and agreement for well-formed programs without subroutine calls -/
+theorem wf_progress (env : Env) (p : Program) (h : WF p) :
+    ∃ g, interp strict env (encode p) = .ok g ∧ (Agrees p → interp goQuirks env (encode p) = .ok g) := by
+  unfold WF wfCheck at h
+  cases hr : wfRun {} p with
+  | none => rw [hr] at h; cases h
+  | some a' =>
+    rw [hr] at h
+    obtain ⟨s1, c1, s2, k1, k2, k3⟩ := prog_progress env p {} a' (St.init env) hr h (sim_init env)
+    refine ⟨s2.glyph, interp_of_reaches strict env _ s1 s2 c1 k1 (k2 strict), fun hag => ?_⟩
+    exact interp_of_reaches goQuirks env _ s1 s2 c1 (k3 hag (by intro v hv; cases hv)) (k2 goQuirks)
 
 end SfntV.T2
